@@ -77,6 +77,10 @@ var ctxModel = porcupine.Model{
 	Equal: func(a, b interface{}) bool { return a.(string) == b.(string) },
 }
 
+// plainCtx hides FContextWithEphemeralProperties so that frugal.Clone takes
+// its generic path.
+type plainCtx struct{ frugal.FContext }
+
 func init() { Register("ctx", ctxHarness) }
 
 func ctxHarness(rc *RunCtx) {
@@ -176,13 +180,45 @@ func ctxHarness(rc *RunCtx) {
 							rc.Violate("C17", "clone-not-equal", "context.go", fmt.Sprintf("original %v/%v/%v, clone %v/%v/%v", a, private.ResponseHeaders(), private.Timeout(), b, cl.ResponseHeaders(), cl.Timeout()))
 						}
 						oc, oo := fmt.Sprintf("only-clone-%d", i), fmt.Sprintf("only-orig-%d", i)
-						cl.AddRequestHeader(oc, "1")
-						cl.AddResponseHeader(oc, "1")
-						cl.AddEphemeralProperty(oc, 1)
-						cl.SetTimeout(9999 * time.Millisecond)
-						private.AddRequestHeader(oo, "1")
-						private.AddResponseHeader(oo, "1")
-						pe.AddEphemeralProperty(oo, 1)
+						var cl2 frugal.FContextWithEphemeralProperties
+						if tp.Intn("ops", 3) == 0 {
+							cl2 = cl.Clone() // a clone of the clone, taken before anything is written
+							noteOpid(cl2, fmt.Sprintf("task%d/clone-of-clone#%d", t, i))
+						}
+						mutClone := func() {
+							cl.AddRequestHeader(oc, "1")
+							cl.AddResponseHeader(oc, "1")
+							cl.AddEphemeralProperty(oc, 1)
+							cl.SetTimeout(9999 * time.Millisecond)
+						}
+						mutOrig := func() {
+							private.AddRequestHeader(oo, "1")
+							private.AddResponseHeader(oo, "1")
+							pe.AddEphemeralProperty(oo, 1)
+						}
+						// either side may be the first to write after the clone
+						if tp.Intn("ops", 2) == 0 {
+							mutOrig()
+							if _, leaked := cl.EphemeralProperty(oo); leaked {
+								rc.Violate("C17", "clone-aliases-original", "ephemeral properties", "a property added to the original after Clone() is visible in the untouched clone")
+							}
+							if _, leaked := cl.RequestHeader(oo); leaked {
+								rc.Violate("C17", "clone-aliases-original", "request headers", "a header added to the original after Clone() is visible in the untouched clone")
+							}
+							mutClone()
+						} else {
+							mutClone()
+							mutOrig()
+						}
+						if cl2 != nil {
+							_, a := cl2.EphemeralProperty(oo)
+							_, b := cl2.EphemeralProperty(oc)
+							_, c := cl2.RequestHeader(oo)
+							_, d := cl2.ResponseHeader(oc)
+							if a || b || c || d {
+								rc.Violate("C17", "clone-aliases-original", "clone of clone", fmt.Sprintf("changes made after cloning reach a clone of the clone: %v %v %v %v", a, b, c, d))
+							}
+						}
 						_, o1 := private.RequestHeader(oc)
 						_, o2 := pe.EphemeralProperty(oc)
 						_, o3 := private.ResponseHeader(oc)
@@ -207,6 +243,23 @@ func ctxHarness(rc *RunCtx) {
 							rc.Violate("C17", "received-context-lost-request-opid", "protocol.go", v)
 						}
 					case 9: // new contexts in a burst
+						{
+							w := plainCtx{frugal.NewFContext("w")}
+							noteOpid(w, fmt.Sprintf("task%d/wrapped#%d", t, i))
+							w.AddRequestHeader("wk", "wv")
+							wc := frugal.Clone(w)
+							noteOpid(wc, fmt.Sprintf("task%d/clone-of-wrapped#%d", t, i))
+							if v, _ := wc.RequestHeader("wk"); v != "wv" {
+								rc.Violate("C17", "clone-not-equal", "Clone(ctx) of a plain FContext", "header not copied")
+							}
+							wc.AddRequestHeader("only-clone", "1")
+							w.AddResponseHeader("only-orig", "1")
+							_, a := w.RequestHeader("only-clone")
+							_, b := wc.ResponseHeader("only-orig")
+							if a || b {
+								rc.Violate("C17", "clone-aliases-original", "Clone(ctx) of a plain FContext", fmt.Sprintf("%v %v", a, b))
+							}
+						}
 						for j := 0; j < 3; j++ {
 							noteOpid(frugal.NewFContext(""), fmt.Sprintf("task%d/new#%d.%d", t, i, j))
 						}
